@@ -4,5 +4,6 @@ CONSTANTS
   Addrs = {"a1", "a2", "a3", "a4"}
   Filt = {}
   DefectByAddr = TRUE
+  C0peer = "a0"
 INVARIANT Report
 CHECK_DEADLOCK FALSE
